@@ -366,6 +366,10 @@ func cmdReplay(a map[string]string) {
 				path = f
 			}
 		}
+		if a["plan"] == "1" && r.lab != nil {
+			pl, perr := r.lab.Plan(c.Op.Text(), c.Op.Name)
+			fmt.Fprintln(os.Stderr, "PLAN:\n"+pl, perr)
+		}
 		if a["v"] == "1" {
 			b, _ := json.MarshalIndent(mkReplay(c, v, true, r.lab), "", " ")
 			fmt.Fprintln(os.Stderr, string(b))
